@@ -395,20 +395,17 @@ struct ClassicProbe : SinkProbe {
 
 }   // namespace
 
-void oracle_categories(World& w)
+namespace {
+// category, accept(), default hooks and view<K> of one node
+void check_dispatch(World& w, const ipr::Node* n)
 {
    const auto& info = cat_info();
-   for (auto& r : w.log)
-      if (r.ent.aux == Aux::None && r.want_cat != Category_code::Unknown && r.ent.node()->category != r.want_cat)
-         w.findings.fail(std::string("C06:category:") + category_name(r.want_cat),
-                         r.factory + " returned a node whose category is " + category_name(r.ent.node()->category));
-   for (auto n : collect_nodes(w, true)) {
       const auto code = n->category;
       const std::size_t ci = std::size_t(code);
       const char* cname = category_name(code);
       if (ci >= info.size() || !info[ci].leaf) {
          w.findings.fail(std::string("C06:category:") + cname, "node carries a code that is not a leaf category");
-         continue;
+         return;
       }
       w.findings.count(std::string("cat_") + cname);
       w.findings.count(std::string("dyn_") + cname + "_" + typeid(*n).name());
@@ -441,7 +438,62 @@ void oracle_categories(World& w)
       VERIF_LEAF_CATEGORIES(X)
 #undef X
       w.findings.count("nodes_checked");
-   }
+}
+}   // namespace
+
+void oracle_categories(World& w)
+{
+   const auto& info = cat_info();
+   for (auto& r : w.log)
+      if (r.ent.aux == Aux::None && r.want_cat != Category_code::Unknown && r.ent.node()->category != r.want_cat)
+         w.findings.fail(std::string("C06:category:") + category_name(r.want_cat),
+                         r.factory + " returned a node whose category is " + category_name(r.ent.node()->category));
+   for (auto n : collect_nodes(w, true)) check_dispatch(w, n);
+}
+
+// The answers are a function of the node alone: a node of another category built in storage that held a node before
+// (the library's node classes are ordinary classes; a front end may well recycle storage between Lexicons) is seen
+// as what it is now.  Every ordered pair of a dozen node classes, constructed one after the other in the same storage.
+void oracle_storage_reuse(World& w)
+{
+   auto& L = w.L();
+   const String& str = L.get_string(u8"storage_reuse");
+   const Identifier& id = L.get_identifier(u8"storage_reuse");
+   const Type& t = L.int_type();
+   const Expr& e = L.true_value();
+   struct alignas(64) Slot {
+      unsigned char bytes[512];
+   };
+   static Slot slot;
+   struct Maker {
+      const char* name;
+      const ipr::Node* (*make)(Slot&, const String&, const Identifier&, const Type&, const Expr&);
+      void (*kill)(const ipr::Node*);
+   };
+#define MK(T, ARG)                                                                                                                                    \
+   Maker{#T,                                                                                                                                           \
+         [](Slot& s, const String& str, const Identifier& id, const Type& t, const Expr& e) -> const ipr::Node* {                                    \
+            (void)str; (void)id; (void)t; (void)e;                                                                                                    \
+            static_assert(sizeof(impl::T) <= sizeof s.bytes);                                                                                         \
+            return new (s.bytes) impl::T(ARG);                                                                                                        \
+         },                                                                                                                                           \
+         [](const ipr::Node* n) { static_cast<const impl::T*>(n)->~T(); }}
+   const Maker makers[] = {MK(Identifier, str), MK(Operator, str),  MK(Suffix, id),  MK(Conversion, t), MK(Ctor_name, t),        MK(Dtor_name, t), MK(Type_id, t),
+                           MK(Pointer, t),      MK(Reference, t),   MK(Rvalue_reference, t),            MK(Decltype, e),         MK(Sizeof, e),    MK(Alignof, e),
+                           MK(Typeid, e),       MK(Label, id)};
+#undef MK
+   constexpr std::size_t n = sizeof makers / sizeof makers[0];
+   for (std::size_t i = 0; i < n; ++i)
+      for (std::size_t j = 0; j < n; ++j) {
+         if (i == j) continue;
+         const ipr::Node* a = makers[i].make(slot, str, id, t, e);
+         check_dispatch(w, a);
+         makers[i].kill(a);
+         const ipr::Node* b = makers[j].make(slot, str, id, t, e);
+         check_dispatch(w, b);
+         makers[j].kill(b);
+         w.findings.count("storage_reuse_pairs");
+      }
 }
 
 // ------------------------------------------------------------------ C07 -----
@@ -493,6 +545,22 @@ void check_homogeneous(World& w, const char* what, const Scope_t& scope, const S
       }
       auto d = ov.get()[first->type()];
       if (!d.is_valid() || !physically_same(d.get(), *first)) w.findings.fail(std::string("C07:select-by-type:") + what, "selecting by the member's type does not give the member");
+      // ... and selecting by a type no member of that name was declared with gives nothing
+      for (std::size_t t = 0; t < w.types.size() && t < 12; ++t) {
+         const Type& other = *w.types[(t * 7 + i) % w.types.size()];
+         bool used = false;
+         for (std::size_t j = 0; j < members.size() && !used; ++j) {
+            try {
+               used = physically_same(members.position(j)->name(), *nm) && physically_same(members.position(j)->type(), other);
+            }
+            catch (const std::logic_error&) {
+            }
+         }
+         if (used) continue;
+         auto none = ov.get()[other];
+         if (none.is_valid()) w.findings.fail(std::string("C07:select-by-undeclared-type:") + what, "selecting by a type the name was not declared with yields a declaration");
+         w.findings.count("negative_type_selections");
+      }
       w.findings.count("homogeneous_members_checked");
    }
    for (auto nm : universe) {
@@ -607,6 +675,12 @@ void oracle_scopes(World& w)
          else {
             auto d = ov.get()[ex.type()];
             if (!d.is_valid() || !physically_same(d.get(), ex)) w.findings.fail("C07:select-by-type:Handler", "selecting by type does not give the exception parameter");
+            for (std::size_t t = 0; t < w.types.size() && t < 12; ++t) {
+               const Type& other = *w.types[t];
+               if (physically_same(other, ex.type())) continue;
+               if (ov.get()[other].is_valid()) w.findings.fail("C07:select-by-undeclared-type:Handler", "selecting by another type yields the exception parameter");
+               w.findings.count("negative_type_selections");
+            }
          }
          if (!physically_same(ex.master(), ex) || ex.decl_set().size() != 1) w.findings.fail("C07:master:Handler", "the exception parameter is not its own singleton decl-set");
       }
